@@ -173,7 +173,7 @@ func C09_Leader() {
 	wd := newWorld(me, c09Weights())
 	n, net := wd.n, wd.net
 	blkA := &stub.Block{H: 1, Tag: 0xA1, ProposalOK: true}
-	blkB := &stub.Block{H: 1, Tag: 0xB2, ProposalOK: true}
+	blkB := &stub.Block{H: 1, Tag: 0xB3, ProposalOK: true}
 	n.timeout()
 	n.timeout()
 	env.Assert("C09.setup_view2", n.m.state.View() == 2)
